@@ -20,8 +20,9 @@ LEVEL = "exploration"
 TECHNIQUE = "model-based operation-sequence generation (exhaustive for short histories) against a FIFO reference"
 RULE = (
     "cases are operation sequences over {enq1, enq3, finish, finish_err, cancel_q, recv, cancel_recv, run}; "
-    "quick enumerates every sequence of length<=5 and draws random ones up to length 40, thorough enumerates "
-    "length<=7; a case is non-trivial when an enqueue happens while a receive is pending, a pending receive is "
+    "quick enumerates every sequence of length<=5 and draws random ones up to length 40 (with bulk enqueues, completed "
+    "receives and single loop turns as extra operations), thorough enumerates length<=7; size-directed histories cover "
+    "backlogs of 1..40 elements and the k-th consecutive buffered delivery (k<=32) cancelled half-way; a case is non-trivial when an enqueue happens while a receive is pending, a pending receive is "
     "cancelled, or the queue is finished while a receive is pending; distinct = distinct op sequence"
 )
 LEVEL_TEXT = (
